@@ -296,7 +296,9 @@ func (ctrl *QController[Input, Output]) reconcileRunning(ctx context.Context, lo
 
 // handleOutputTearingDown checks if output is being torn down. If it is, it will check if it is ready to be destroyed, will destroy it.
 func (ctrl *QController[Input, Output]) handleOutputTearingDown(ctx context.Context, r controller.QRuntime, mappedOut Output) error {
-	output, err := r.Get(ctx, mappedOut.Metadata())
+	// read the output bypassing the cache: the cache might lag behind the controller's own writes and still show the previous
+	// generation of the output tearing down, and the Destroy below would then remove the new, running one
+	output, err := r.GetUncached(ctx, mappedOut.Metadata())
 	if err != nil && !state.IsNotFoundError(err) {
 		return err
 	}
